@@ -13,6 +13,7 @@ EXPLANATION = (
     "written-flag rewrite follows the body append and is followed by a sync. Sync wrappers are not tabled: they are recognised by a "
     "must-on-ok summary that bottoms out at std::fs::File::sync_all/sync_data and crosses spawn_blocking/block_in_place runners. "
     "Decides this ordering structure, not the runtime bound on un-synced bytes.")
+EXPLANATION += (" " + "S9 = C13.L9 instances; S10 the only way around tokio::spawn in the worker's try_run_* functions is a branch decided by JoinHandle::is_finished.")
 ASSUMPTIONS = ["std::fs::File::sync_all / sync_data are the only durability primitives (checked: no other fsync-like call in the call-site survey)"]
 
 
@@ -418,6 +419,97 @@ def s8(ctx, rid, only_sync=True):
         raise core.AnchorLost('fsync_in_progress flag')
 
 
+def s9(ctx, rid):
+    import props.c13 as c13
+    c13.l9(ctx, rid)
+
+
+def _mentions_is_finished(prog, f, operand, depth=6):
+    """does the tested value depend on JoinHandle::is_finished (directly, or inside a closure handed to map_or / is_some_and ..)"""
+    l = op_local(operand)
+    seen = set()
+    work = [l]
+    while work and depth > 0:
+        l = work.pop()
+        if l is None or l in seen:
+            continue
+        seen.add(l)
+        for (bb, si, kind, payload) in f.defs().get(l, []):
+            if kind == 'call':
+                c = payload
+                if c.name == 'is_finished' and 'JoinHandle' in c.path:
+                    return True
+                for a in c.args:
+                    la = op_local(a)
+                    if la is None:
+                        continue
+                    if f.locals[la].get('h') == 'closure':
+                        g = prog.fns.get(f.locals[la]['a'][0])
+                        if g is not None and any(x.name == 'is_finished' and 'JoinHandle' in x.path for x in g.calls):
+                            return True
+                    elif f.locals[la]['s'] == 'bool':
+                        work.append(la)
+            elif kind == 'assign':
+                for p in core.rvalue_places(payload):
+                    work.append(p[0])
+    return False
+
+
+def s10(ctx, rid, only_sync=True):
+    """a background task (tokio::spawn whose handle is kept in a worker field) is skipped only while a task is really running:
+    the branch that leaves the function without spawning is decided by JoinHandle::is_finished.  A test of mere presence of the
+    handle (`is_some()`) keeps refusing after the task has ended and before the loop reaped it: the request is dropped."""
+    prog = ctx.prog
+    n = 0
+    for f in prog.fns.values():
+        if not f.file.endswith('observer_worker.rs') or not f.is_coroutine:
+            continue
+        sps = [c for c in f.calls if c.name == 'spawn' and c.crate == 'tokio' and c.bb in f.reachable()]
+        if not sps:
+            continue
+        L, E = prog.may_reach()
+        if only_sync:
+            # the spawned task reaches the file sync
+            def reaches_sync(c):
+                for a in c.args:
+                    l = op_local(a)
+                    if l is not None and f.locals[l].get('h') in ('coroutine', 'closure'):
+                        cid = f.locals[l]['a'][0]
+                        if any(x.endswith('::fsyncdata') or x.endswith('::sync_all') for x in L.get(cid, ())):
+                            return True
+                return False
+            sps = [c for c in sps if reaches_sync(c)]
+            if not sps:
+                continue
+        spb = [c.bb for c in sps]
+        can = set()
+        for i in f.reachable():
+            if any(b in f.reach_from([i]) for b in spb):
+                can.add(i)
+        n += 1
+        key = 'skip-only-while-running|%s' % prog.fns[f.id].root
+        bad = None
+        for i in sorted(can):
+            t = f.blocks[i]['t']
+            if t['k'] != 'switch':
+                continue
+            outs = [tg for _, tg in t['vals']] + [t['otherwise']]
+            outs = [x for x in outs if x is not None and f.blocks[x]['t']['k'] != 'unreachable']
+            if any(x not in can for x in outs) and any(x in can for x in outs):
+                # deciding switch: skip the awaits' own Pending edges
+                if any(a.switch_bb == i for a in f.awaits()):
+                    continue
+                if not _mentions_is_finished(prog, f, t['o']):
+                    bad = i
+                    break
+        if bad is not None:
+            ctx.bad(rid, key, f.where(bad), 'the background task is not started on a branch that is not decided by JoinHandle::is_finished(): a finished but not yet reaped handle makes the worker drop the request (for the sync task: dirty bytes stay un-synced until some later request)')
+        else:
+            ctx.ok(rid, key, f.where(spb[0]), 'the only way around tokio::spawn is the `!is_finished()` branch')
+    if n < 1:
+        raise core.AnchorLost('worker functions that spawn a background task: %d' % n)
+
+
 RULES = [
     Rule('C12.S1', 'every ok-return of the blob constructor is preceded by the header append and then a completed ok file sync', s1, 2),
     Rule('C12.S2', 'every index dump / index-file construction call is dominated by an ok sync of the blob file (in the function or in every caller)', s2, 3),
@@ -427,5 +519,7 @@ RULES = [
     Rule('C12.S5', 'every append to the active blob feeds the dirty-byte check (on every path to the ok-return in the write path); every check controls a sync request on its true edge; the worker handler reaches a sync', s5, 5),
     Rule('C12.S6', 'the synced-size counter is only advanced by fetch_max after an ok sync_all, with a size captured before the sync', s6, 2),
     Rule('C12.S7', 'in index construction the written-flag rewrite follows the ok body append and is followed by an ok sync', s7, 1),
+    Rule('C12.S9', 'sync requests to the worker are sent with the waiting send, never dropped when the queue is full (C13.L9 instances)', s9, 1),
+    Rule('C12.S10', 'the worker skips starting the sync task only while a sync task is really running (decided by JoinHandle::is_finished)', s10, 1),
     Rule('C12.S8', 'every boolean in-progress / request-pending flag that was set is released on every exit (drop guard or explicit clear on all paths): the sync it guards is never suppressed for ever', s8, 1),
 ]
